@@ -277,12 +277,26 @@ def replay(h, recipe):
 def sweep_jobs(module):
     """Deterministic single-point variants: for the first instance of every custom-format op name in
     the module: add a discardable attribute, drop each attribute / property, set each property that has
-    a declared default to that default."""
+    a declared default to that default; for the first instance of every (op name, operand count) with a
+    variadic/optional operand definition: duplicate / remove one operand (see change_operand_count)."""
     seen = set()
+    seen_shape = set()
     jobs = []
     from xdsl.ir import Operation
     for pos, o in enumerate(module.walk()):
-        if o is module or o.name in seen or type(o).print is Operation.print:
+        if o is module or type(o).print is Operation.print:
+            continue
+        get_def = getattr(type(o), "get_irdl_definition", None)
+        # operand-count variants: first instance of every (op name, operand count) shape
+        if get_def is not None and (o.name, len(o.operands)) not in seen_shape and \
+                any(_is_variadic(d) for _, d in get_def().operands):
+            seen_shape.add((o.name, len(o.operands)))
+            n = len(o.operands)
+            idxs = sorted(set(list(range(min(n, 6))) + list(range(max(0, n - 2), n))))
+            for i in idxs:
+                jobs.append(["dup_operand", pos, f"{i}/{n}"])
+                jobs.append(["del_operand", pos, f"{i}/{n}"])
+        if o.name in seen:
             continue
         seen.add(o.name)
         jobs.append(["add", pos, "extra"])
@@ -290,13 +304,83 @@ def sweep_jobs(module):
             jobs.append(["drop_attr", pos, k])
         for k in sorted(o.properties):
             jobs.append(["drop_prop", pos, k])
-        get_def = getattr(type(o), "get_irdl_definition", None)
         if get_def is not None:
             for n, d in get_def().properties.items():
                 dv = getattr(d, "default_value", None)
                 if dv is not None and o.properties.get(n) != dv:
                     jobs.append(["default", pos, n])
     return jobs
+
+
+def _is_variadic(d) -> bool:
+    from xdsl.irdl import VariadicDef
+    return isinstance(d, VariadicDef)      # OptionalDef is a VariadicDef
+
+
+def _int_arrays(o):
+    """(container name, key, values) of every dense i32/i64 array attached to the op."""
+    from xdsl.dialects.builtin import DenseArrayBase, IntegerType
+    for cname, cont in (("properties", o.properties), ("attributes", o.attributes)):
+        for k in sorted(cont):
+            a = cont[k]
+            if isinstance(a, DenseArrayBase) and isinstance(a.elt_type, IntegerType):
+                yield cname, k, list(a.get_values())
+
+
+def _set_array(o, cname, k, vals):
+    from xdsl.dialects.builtin import DenseArrayBase
+    cont = getattr(o, cname)
+    cont[k] = DenseArrayBase.from_list(cont[k].elt_type, vals)
+
+
+def change_operand_count(module, o, i, delta) -> bool:
+    """Duplicate (delta=+1) or remove (delta=-1) operand i of o, keeping the instance valid: the segment
+    size attribute of an AttrSizedOperandSegments op follows; if the op still does not verify, the first
+    single-entry +-1 adjustment of another dense integer array of the op (ops that encode a variadic of
+    variadics in an extra segments property, e.g. cf.switch) that makes the module verify is taken."""
+    from xdsl.irdl import AttrSizedOperandSegments
+    ops = list(o.operands)
+    if i >= len(ops):
+        return False
+    new = ops[:i + 1] + [ops[i]] + ops[i + 1:] if delta > 0 else ops[:i] + ops[i + 1:]
+    opt = next((x for x in type(o).get_irdl_definition().options if isinstance(x, AttrSizedOperandSegments)), None)
+    seg_key = None
+    if opt is not None:
+        cont = opt.container(o)
+        if opt.attribute_name not in cont:
+            return False
+        sizes = list(cont[opt.attribute_name].get_values())
+        acc = 0
+        for s_i, sz in enumerate(sizes):
+            if i < acc + sz:
+                sizes[s_i] += delta
+                break
+            acc += sz
+        else:
+            return False
+        seg_key = opt.attribute_name
+        _set_array(o, "properties" if opt.as_property else "attributes", seg_key, sizes)
+    o.operands = new
+    try:
+        module.verify()
+        return True
+    except Exception:
+        pass
+    for cname, k, vals in list(_int_arrays(o)):
+        if k == seg_key:
+            continue
+        for j in range(len(vals)):
+            if vals[j] + delta < 0:
+                continue
+            trial = list(vals)
+            trial[j] += delta
+            _set_array(o, cname, k, trial)
+            try:
+                module.verify()
+                return True
+            except Exception:
+                _set_array(o, cname, k, vals)
+    return False
 
 
 def apply_sweep_mut(module, mut) -> bool:
@@ -321,6 +405,8 @@ def apply_sweep_mut(module, mut) -> bool:
     elif kind == "default":
         d = type(o).get_irdl_definition().properties[key]
         o.properties[key] = d.default_value
+    elif kind in ("dup_operand", "del_operand"):
+        return change_operand_count(module, o, int(key.split("/")[0]), 1 if kind == "dup_operand" else -1)
     else:
         raise AssertionError(kind)
     try:
